@@ -45,7 +45,7 @@ class CliCheck(object):
     # ------------------------------------------------------------------ exploration
     def explore(self):
         opts = self.opts
-        self.pool = driver.Pool(opts.repo, [0], opts.workers, wall_cap=180.0)
+        self.pool = driver.Pool(opts.repo, [0], opts.workers, wall_cap=180.0, kind='cli')
         budget = common.Budget(self.budget_s, opts.max_runs)
         started = 0
         try:
@@ -328,7 +328,7 @@ def run_replay(opts, prop):
     with open(opts.replay) as f:
         rp = json.load(f)
     chk = CliCheck(opts, prop)
-    chk.pool = driver.Pool(opts.repo, [0], 1, wall_cap=180.0)
+    chk.pool = driver.Pool(opts.repo, [0], 1, wall_cap=180.0, kind='cli')
     try:
         got, res = chk.reproduces(rp['spec'], rp['violation'], fresh=True)
         if isinstance(res, dict) and 'harness_error' in res:
